@@ -501,7 +501,24 @@ def world_predicates(ops, outs):
 
 # a value with both __close and __gc; its __close handler marks a new value ("late:<n>")
 BOTH_PRELUDE = ("local function both(n) local mt = gcmt(n) mt.__close = function() log('close:' .. n) "
-                "_G['late_' .. n] = setmetatable({}, gcmt('late:' .. n)) end return setmetatable({}, mt) end")
+                "_G['late_' .. n] = setmetatable({}, gcmt('late:' .. n)) end local v = setmetatable({}, mt) _G['keep_' .. n] = v return v end")
+
+
+# (has its own finaliser pool?, opening text up to "function()", text after "end)")
+CTX_FORMS = []
+for _cpu in (0, 1):
+    for _mem in (0, 1):
+        for _ms in (0, 1):
+            if _cpu or _mem or _ms:
+                lim = ", ".join(x for x in (("cpu=10000000" if _cpu else ""), ("memory=100000000" if _mem else ""), ("millis=100000" if _ms else "")) if x)
+                CTX_FORMS.append((True, "runtime.callcontext({kill={%s}}, function()" % lim, ".status"))
+CTX_FORMS += [
+    (True, "gcctx('isolate', function()", ""),
+    (True, "gcctx('isolate', function()", ""),
+    (False, "gcctx('share', function()", ""),
+    (False, "runtime.callcontext({stop={cpu=10000000}}, function()", ".status"),
+    (False, "runtime.callcontext({flags='cpusafe'}, function()", ".status"),
+]
 
 
 def lua_program(rng):
@@ -551,8 +568,12 @@ def lua_program(rng):
                 pool.append(e)
             elif r < 90 and depth < 2:
                 kind = rng.choice(["ok", "ok", "error", "error", "kill"])
-                inner = []
-                src.append("%sdo local ctx = runtime.callcontext({kill={cpu=1000000}}, function()" % indent)
+                # which kind of context: every non-empty subset of the hard limits {cpu, memory, millis} and the explicit
+                # GC policy give the context its own finaliser pool; soft limits, flags or the sharing policy do not
+                form = rng.choice(CTX_FORMS)
+                isolating = form[0]
+                inner = [] if isolating else pool
+                src.append("%sdo local st = %s" % (indent, form[1]))
                 # to-be-closed locals holding values with both __close and __gc, pending when the context is left
                 tbc = []
                 for _ in range(rng.choice([0, 0, 1, 2, 3])):
@@ -565,15 +586,17 @@ def lua_program(rng):
                     src.append("%s  error('boom')" % indent)
                 elif kind == "kill":
                     src.append("%s  runtime.killcontext()" % indent)
-                src.append("%send) log(ctx.status) end" % indent)
+                src.append("%send)%s log(st) end" % (indent, form[2]))
                 if kind != "kill":
                     # the pending __close handlers run first (reverse order of declaration), each marking a new value;
                     # only then the context's finalisers, the values just closed included
                     for c in reversed(tbc):
                         expect.append("l:close:" + c)
                         inner.append(["-", "c", "late:" + c, False])
-                    expect.extend("gc:" + e[2] for e in reversed(inner) if e[2])
-                expect.extend("rel:" + e[0] for e in reversed(inner) if e[3])
+                    if isolating:
+                        expect.extend("gc:" + e[2] for e in reversed(inner) if e[2])
+                if isolating:
+                    expect.extend("rel:" + e[0] for e in reversed(inner) if e[3])
                 expect.append("l:" + {"ok": "done", "error": "error", "kill": "killed"}[kind])
             elif r < 95 and depth == 0:
                 # everything is reachable through globals: forcing the collector must not finalise anything
@@ -633,8 +656,40 @@ LUA_FIXED = [
      "do local r = setmetatable({}, mt) end\nlocal n = 0\nwhile not done and n < 3000000 do local f = function() return {n} end f() n = n + 1 end\n"
      "log(tostring(done))\n", "",
      ["l:gc:r", "l:true", "close", "l:gc:r"]),
+    # memory as the ONLY hard limit: own pool all the same — finalisers at exit, charged to it, skipped when it is killed
+    # by memory (not run afterwards, outside, either), releases still made
+    ("memory-only-exit", "local st = runtime.callcontext({kill={memory=1000000}}, function()\n  t = setmetatable({}, gcmt('t'))\n  u = mkud('u', gcmt('gu'))\n"
+     "  log('body')\nend).status\nlog(st)\n", "",
+     ["l:body", "gc:gu", "gc:t", "rel:u", "l:done", "close"]),
+    ("memory-only-killed", "local st = runtime.callcontext({kill={memory=100000}}, function()\n  t = setmetatable({}, gcmt('t'))\n  u = mkud('u', gcmt('gu'))\n"
+     "  local s = {}\n  for i = 1, 1000000 do s[i] = {i} end\n  log('not reached')\nend).status\nlog(st)\n", "",
+     ["rel:u", "l:killed", "close"]),
+    ("memory-only-charged", "local function run(work)\n  local ctx = runtime.callcontext({kill={memory=10000000}}, function()\n"
+     "    x = setmetatable({}, {__gc=function() local t = {} for i=1,work do t[i] = i end log('gc') end})\n  end)\n  return ctx.used.memory\nend\n"
+     "local a, b = run(10), run(10000)\nlog(tostring(b - a >= 50000))\n", "",
+     ["l:gc", "l:gc", "l:true", "close"]),
+    ("millis-only-exit", "local st = runtime.callcontext({kill={millis=100000}}, function()\n  t = setmetatable({}, gcmt('t'))\n  u = mkud('u')\nend).status\nlog(st)\n", "",
+     ["gc:t", "rel:u", "l:done", "close"]),
+    # Runtime.Close with a killed context on the runtime itself (what the CLI's -cpulimit does): finalisers skipped, releases made
+    ("root-killed-close", "x = setmetatable({}, {__gc = function() log('gc:x ' .. runtime.context().status) for i = 1, 100000 do end end})\n"
+     "u = mkud('u', gcmt('gu'))\nwhile true do end\n", "rootcpu=100000",
+     ["terminated", "root:killed", "close", "rel:u"]),
+    ("root-live-close", "x = setmetatable({}, gcmt('x'))\nu = mkud('u', gcmt('gu'))\nlog('fine')\n", "rootcpu=100000",
+     ["l:fine", "root:live", "close", "gc:gu", "gc:x", "rel:u"]),
     ("nested-ctx", "runtime.callcontext({kill={cpu=100000}}, function()\n a = setmetatable({}, gcmt('a'))\n runtime.callcontext({kill={cpu=10000}}, function() b = mkud('b', gcmt('b')) end)\n log('mid')\nend)\nlog('out')\n", "",
      ["gc:b", "rel:b", "l:mid", "gc:a", "l:out", "close"]),
+]
+
+
+# witnesses of recorded defects: (name, source, options, log the property prescribes, finding id, log / status observed on the recorded tree)
+LUA_KNOWN = [
+    ("double-release-after-escape", "local st = runtime.callcontext({kill={cpu=100000}}, function() u = mkud('u') end).status\nlog(st)\n"
+     "debug.setmetatable(u, gcmt('g'))\n", "",
+     ["rel:u", "l:done", "close", "gc:g"], "C18-double-release-after-escape", ("ok", ["rel:u", "l:done", "close", "gc:g", "rel:u"])),
+    ("userdata-same-go-value", "a, b = mkpair('p', gcmt('p'))\nlog('made')\n", "",
+     ["l:made", "close", "gc:p", "gc:p", "rel:p", "rel:p"], "C18-userdata-sharing-go-value-share-pool-entry", ("ok", ["l:made", "close", "gc:p", "rel:p"])),
+    ("userdata-unhashable-go-value", "local ok = pcall(mkraw, gcmt('r'))\nlog(tostring(ok))\n", "",
+     ["l:true", "close", "gc:r"], "C18-marked-userdata-with-unhashable-go-value-panics", ("gopanic", [])),
 ]
 
 
@@ -817,6 +872,8 @@ def run(tier, seed):
     lua_cases = []   # (id, name, src, opts, expect)
     for name, src, opts, expect in LUA_FIXED:
         lua_cases.append((name, src, opts, expect, "fixed"))
+    for name, src, opts, expect, fid, seen in LUA_KNOWN:
+        lua_cases.append((name, src, opts, (expect, fid, seen), "knownw"))
     nlua = 2000 if tier == "quick" else 20000
     for j in range(nlua):
         src, expect = lua_program(rng)
@@ -864,6 +921,17 @@ def run(tier, seed):
                 bad = "status %s (%s)" % (status, errm[:200])
             elif log != expect:
                 bad = "log differs from the prescribed one"
+        elif kind == "knownw":
+            want, fid, seen = expect
+            k = ck.known_match(lambda kk: kk.get("id") == fid)
+            if status == "ok" and log == want:
+                ck.cov.setdefault("known_witness_no_longer_fails", []).append(fid)
+            elif k is not None and status == seen[0] and (log == seen[1] or seen[0] != "ok"):
+                ck.known_finding(k)
+                ck.count("known:" + fid)
+            else:
+                bad = "status %s log %s, the property prescribes %s; %s" % (status, log, want, errm[:200])
+            expect = want
         elif kind == "gc":
             if status != "ok":
                 bad = "status %s (%s)" % (status, errm[:200])
